@@ -17,9 +17,10 @@ PROPS = {
     "C01": dict(
         level="exploration", labels=LOOP_LABELS,
         campaigns=[("loop", ["profile=all"], 100000, 2000000), ("loop", ["profile=all", "big=1"], 30000, 600000),
-                   ("loop", ["profile=fd"], 20000, 400000)],
+                   ("loop", ["profile=fd"], 20000, 400000), ("mt", ["profile=event"], 15000, 300000)],
         rule="cases = online-decoded loop programs (register/unregister/set-handler/post from setup and callbacks over fds, timers, tasks, events, raw events; 4 poll methods; malloc/free-at-unregister or slot-reuse allocation) from seeded PRNG bytes; non-trivial = the case executed, inside a callback, an unregister of an object that was due in that iteration and not yet dispatched, or of the running object itself; distinct = distinct hash of the executed action sequence + configuration",
         assumptions=["objects are freed/poisoned by the harness at the instant unregister returns; stale accesses are visible through AddressSanitizer or through a stale cookie cell",
+                     "the mt campaign adds cross-thread event kicks whose handlers unregister and free descriptors collected in the same poll batch",
                      "signal/wait/inotify object kinds are exercised by the C10/C11/C20 targets, which apply the same rule"],
     ),
     "C02": dict(
@@ -104,6 +105,38 @@ PROPS["C17"] = dict(
     technique="property-based testing with fault injection: seeded generated I/O schedules, round-trip (stream equality) and state-accounting oracles; choice-sequence shrinking",
     design_ref="DESIGN.md section 3 (C17)",
 )
+MT_LABELS = ["context_switch_inside_iv_event_post", "context_switch_at_owner_lock_boundary", "cross_thread_post", "self_post", "post_from_handler",
+             "unregister_with_post_pending", "two_owner_loops", "work_pool", "submit_while_all_workers_busy", "submit_after_idle_timer_expiry_worker_alive",
+             "submit_before_any_worker_ran", "continuation_from_worker", "put_while_work_running", "put_while_worker_starting", "put_while_workers_idle",
+             "worker_died_of_idle_timeout", "iv_thread_child", "iv_thread_exit_without_deinit", "iv_thread_pthread_exit", "method_epoll_timerfd",
+             "method_epoll", "method_ppoll", "method_poll", "raw_event_kick_transport", "eventfd_fallback_transport", "fd_unregistered_in_event_handler",
+             "pool_struct_reuse", "submit_from_completion", "virtual_time_passed_10s", "post_burst", "raw_cross_thread_post", "raw_big_burst",
+             "null_pool_work", "put_from_completion"]
+_MT_NOTE = ("trusted: the baton scheduler (harness/vsched.c: preemption only at interposed lock / kick / descriptor-I/O / wait / thread create-join points), "
+            "the virtual kernel, the harness' history bookkeeping in harness/t_mt.c, ASan/UBSan. Races between two plain memory accesses are out of reach "
+            "here (C14's TSan runs look for those). Exploration of generated schedules, not an exhaustive interleaving search.")
+_MT_TECH = "property-based testing over generated programs AND generated schedules: real pthreads serialised by a baton at every interposed synchronisation point, virtual time, history-invariant oracles at quiescence; two-stream choice-sequence shrinking (schedule first, then program)"
+PROPS["C08"] = dict(
+    level="exploration", labels=MT_LABELS, engine="mt",
+    campaigns=[("mt", ["profile=event"], 40000, 800000), ("mt", ["profile=all"], 15000, 300000)],
+    rule="cases = (program bytes, schedule bytes): 1-2 owner loops with stop/shared/private iv_events, 0-3 poster threads with drawn scripts (post, burst, yield, pipe write, raw post), handlers that post to themselves / the other owner, register and unregister private events, optional work pool and iv_thread children in the same loops; 4 poll methods (epoll one-shot kick and raw-event kick transports) x eventfd2/eventfd/pipe; schedule = choice at every lock, unlock, epoll_ctl, descriptor read/write, wait, thread create/join; oracles: whenever every thread is parked (before virtual time advances, and at deadlock) no registered event may have a completed post that is not followed by a handler entry; handler count <= post count; handler thread = owner; deadlock = violation; non-trivial = a context switch happened inside an iv_event_post call or at an owner-side lock boundary; distinct = hash(program actions)",
+    assumptions=["preemption only at interposed synchronisation points (sufficient for lock-, kick- and wake-up-order defects)"],
+    level_text="exploration of generated poster/owner programs under generated schedules on both wake-up transports; lost wake-ups are detected as quiescence with an undelivered post, not by timeouts",
+    level_note=_MT_NOTE, technique=_MT_TECH, design_ref="DESIGN.md sections 2.3 and 3 (C08)")
+PROPS["C12"] = dict(
+    level="exploration", labels=MT_LABELS, engine="mt",
+    campaigns=[("mt", ["profile=work"], 40000, 800000), ("mt", ["profile=all"], 15000, 300000)],
+    rule="cases = (program bytes, schedule bytes): pool with max_threads 1-4, submissions at setup, from completions, from timers at virtual +1 ms / +0.5 s / +9.999 s / +10 s / +10.001 s / +20 s (around the 10 s idle timeout), continuations submitted from work functions, NULL-pool submissions, work functions with yield points, pool release at generated moments; oracles: per item work exactly once in a non-owner thread, completion exactly once in the owner after work returned, running work functions <= max_threads, every submitted item complete when the owner's loop ends, quiescence with incomplete items = violation; non-trivial = a submission while all started workers were busy, or after the idle timeout with a worker still alive, or before any worker ran; distinct = hash(program actions)",
+    assumptions=["same scheduler granularity as C08"],
+    level_text="exploration of generated submission programs under generated schedules and virtual time across the idle timeout",
+    level_note=_MT_NOTE, technique=_MT_TECH, design_ref="DESIGN.md sections 2.3 and 3 (C12)")
+PROPS["C13"] = dict(
+    level="exploration", labels=MT_LABELS, engine="mt",
+    campaigns=[("mt", ["profile=pool"], 40000, 800000), ("mt", ["profile=all"], 15000, 300000)],
+    rule="cases = as C12 plus iv_thread_create children ending by return / pthread_exit, with / without iv_init and iv_deinit; iv_work_pool_put from setup-time actions, completions, timers and shutdown, the pool struct poisoned and freed the moment put returns; oracles: every item submitted before the release completes, per worker thread_start then exactly one thread_stop, when the owner's iv_main returns every pool thread and every iv_thread child has finished AND was joined exactly once, iv_main does return (deadlock detector), ASan on the freed pool struct; non-trivial = release while work was running or workers idle, or an iv_thread child; distinct = hash(program actions)",
+    assumptions=["same scheduler granularity as C08", "thread exit is observed through a harness TLS destructor that lets the library's own destructors run under the schedule first"],
+    level_text="exploration of generated release / thread-exit timings under generated schedules",
+    level_note=_MT_NOTE, technique=_MT_TECH, design_ref="DESIGN.md sections 2.3 and 3 (C13)")
 
 ENGINES = [
     dict(name="vfz", path="harness/vfz.c", serves_properties=["C01", "C02", "C03", "C04", "C06", "C07"],
@@ -116,6 +149,8 @@ ENGINES = [
 ENGINES.append(dict(name="avl", path="harness/t_avl.c", serves_properties=["C16"], kind_free_text="AVL tree: bounded-exhaustive shape enumeration and random histories against a reference ordered set"))
 ENGINES.append(dict(name="timers", path="harness/t_timers.c", serves_properties=["C05"], kind_free_text="timer heap histories at large populations against a reference multiset model, virtual clock"))
 ENGINES.append(dict(name="pump", path="harness/t_pump.c", serves_properties=["C17"], kind_free_text="iv_fd_pump sessions with interposed read/write/splice/shutdown and external byte accounting"))
+ENGINES.append(dict(name="vsched", path="harness/vsched.c", serves_properties=["C08", "C12", "C13"], kind_free_text="engine B: baton scheduler over real pthreads with generated schedules (second choice stream), deadlock/quiescence detection, virtual time"))
+ENGINES.append(dict(name="mt", path="harness/t_mt.c", serves_properties=["C08", "C12", "C13"], kind_free_text="multi-threaded scenario programs: owners, posters, work pool, iv_thread children"))
 NOT_APPLICABLE = {}
 
 _COMMON_NOTE = ("trusted: the harness' shadow model and oracles (harness/t_loop.c), the link-time interposition layer (harness/vk.c), the running "
@@ -212,7 +247,7 @@ def run_check(prop, spec, tier, seed, scale, write_evidence=True):
             return
         seen_tags.add(key)
         params, data = vlib.read_case(casefile)
-        small = vlib.shrink(exe, params, data, r, outdir, budget_s=45 if tier == "quick" else 120)
+        small, params = vlib.shrink(exe, params, data, r, outdir, budget_s=45 if tier == "quick" else 120)
         hh = hashlib.sha1(small).hexdigest()[:10]
         safe = re.sub(r"[^A-Za-z0-9_.@-]", "_", r["tag"])[:60]
         rp = os.path.join(rdir, "%s-%s.case" % (safe, hh))
